@@ -535,6 +535,9 @@ func (req *Request) Process(store StorageClient, stat *Stats) (resp *Response, e
 		key := req.Keys[0]
 		var suc bool
 		suc, err = store.Append(key, req.Item.Body)
+		// Append only looks at the bytes: the buffer read by the parser is still ours
+		cmem.DBRL.SetData.SubSizeAndCount(req.Item.CArray.Cap)
+		req.Item.CArray.Free()
 		if err != nil {
 			resp.Status = "SERVER_ERROR"
 			resp.Msg = err.Error()
@@ -624,6 +627,11 @@ func (req *Request) Process(store StorageClient, stat *Stats) (resp *Response, e
 	default:
 		resp = nil
 		logger.Errorf("Should not reach here, req.Cmd: %s", req.Cmd)
+		if req.Cmd == "prepend" && req.Item != nil {
+			// accepted by the parser (with a value) but not implemented: release the value
+			cmem.DBRL.SetData.SubSizeAndCount(req.Item.CArray.Cap)
+			req.Item.CArray.Free()
+		}
 	}
 
 	return
